@@ -746,7 +746,12 @@ func (sc *scenario) orders(o observed) (ro, dord, fails string) {
 		case "remove":
 			p := pathToken(filepath.Base(op.Src), o.temps)
 			if strings.HasPrefix(p, "t") {
-				continue // cleanup of a temp file: not a toDelete entry, not fallible in the model
+				// setTombstone's cleanup of its temp file after a failed rename: not a toDelete entry, but it can fail too
+				if !op.OK {
+					fl = append(fl, strconv.Itoa(tick))
+				}
+				tick++
+				continue
 			}
 			doL = append(doL, p)
 			seenDo[p] = true
@@ -1111,10 +1116,10 @@ func main() {
 		for _, k := range templateKeys {
 			specs = append(specs, caseSpec{Mode: "stop", Template: k, NShards: 1 + r.Intn(2), Seed: r.U64(), ShardMerging: true})
 		}
-		for i := 0; i < f.N(20, 400); i++ {
+		for i := 0; i < f.N(14, 400); i++ {
 			specs = append(specs, randomSpec(r, "stop"))
 		}
-		for i := 0; i < f.N(40, 600); i++ {
+		for i := 0; i < f.N(30, 600); i++ {
 			specs = append(specs, randomSpec(r, "fault"))
 		}
 		for i := 0; i < f.N(2, 40); i++ {
